@@ -39,9 +39,16 @@ func (o *OvsMap) UnmarshalJSON(b []byte) (err error) {
 	var oMap []interface{}
 	o.GoMap = make(map[interface{}]interface{})
 	if err := json.Unmarshal(b, &oMap); err == nil && len(oMap) > 1 {
-		innerSlice := oMap[1].([]interface{})
+		typeErr := &json.UnmarshalTypeError{Value: reflect.ValueOf(oMap).String(), Type: reflect.TypeOf(*o)}
+		innerSlice, ok := oMap[1].([]interface{})
+		if !ok {
+			return typeErr
+		}
 		for _, val := range innerSlice {
-			f := val.([]interface{})
+			f, ok := val.([]interface{})
+			if !ok || len(f) != 2 {
+				return typeErr
+			}
 			var k interface{}
 			switch f[0].(type) {
 			case []interface{}:
@@ -56,6 +63,10 @@ func (o *OvsMap) UnmarshalJSON(b []byte) (err error) {
 				k = goSlice
 			default:
 				k = f[0]
+			}
+			if k != nil && !reflect.TypeOf(k).Comparable() {
+				// sets, maps and json objects cannot be map keys
+				return typeErr
 			}
 			switch f[1].(type) {
 			case []interface{}:
